@@ -3,8 +3,12 @@ package main
 import (
 	"go/ast"
 	"go/token"
+	"sort"
 	"strconv"
+	"strings"
 )
+
+func nospaceC37(s string) string { return strings.Join(strings.Fields(s), "") }
 
 func init() { generators["C37"] = genC37 }
 
@@ -116,9 +120,47 @@ func genC37(g *gen) {
 			}
 		}
 	}
+	// who calls expandEnvVars, and what Load hands to Parse
+	callers := []string{}
+	loadDirect := false
+	for _, file := range parseDir("internal/config") {
+		for _, d := range file.Decls {
+			fd, ok := d.(*ast.FuncDecl)
+			if !ok || fd.Body == nil {
+				continue
+			}
+			ast.Inspect(fd.Body, func(n ast.Node) bool {
+				if c, ok := n.(*ast.CallExpr); ok {
+					switch src(c.Fun) {
+					case "expandEnvVars", "os.ExpandEnv", "os.Expand":
+						callers = append(callers, fd.Name.Name+":"+src(c.Fun))
+					}
+				}
+				return true
+			})
+			if fd.Name.Name == "Load" && fd.Recv == nil {
+				// data, err := os.ReadFile(path) ... return Parse(data)
+				readVar := ""
+				for _, st := range fd.Body.List {
+					switch x := st.(type) {
+					case *ast.AssignStmt:
+						if len(x.Rhs) == 1 && strings.HasPrefix(nospaceC37(src(x.Rhs[0])), "os.ReadFile(") && len(x.Lhs) >= 1 {
+							readVar = src(x.Lhs[0])
+						}
+					case *ast.ReturnStmt:
+						if len(x.Results) == 1 && readVar != "" && nospaceC37(src(x.Results[0])) == "Parse("+readVar+")" {
+							loadDirect = true
+						}
+					}
+				}
+			}
+		}
+	}
+	sort.Strings(callers)
 	if !okRe || !single || !sepOK {
 		g.note("pattern not recognised in envVarRegex/expandEnvVars; facts set to empty/false")
 	}
+	g.line("Local Open Scope string_scope.")
 	g.line("Definition gen_regex_source : string := %s.", coqString(re))
 	g.line("Definition gen_single_replace_pass : bool := %s.", coqBool(single))
 	g.line("Definition gen_closure_reenters_expansion : bool := %s.", coqBool(reenters))
@@ -132,4 +174,10 @@ func genC37(g *gen) {
 	g.line("Definition gen_brace_prefix : string := %s.", coqString(bracePrefix))
 	g.line("Definition gen_lookupenv_calls : N := %d.", lookups)
 	g.line("Definition gen_getenv_calls : N := %d.", getenvs)
+	cq := make([]string, len(callers))
+	for i, x := range callers {
+		cq[i] = coqString(x)
+	}
+	g.line("Definition gen_expansion_call_sites : list string := [%s].", strings.Join(cq, "; "))
+	g.line("Definition gen_load_hands_file_bytes_to_parse : bool := %s.", coqBool(loadDirect))
 }
